@@ -14,8 +14,9 @@
    Any enabled label may fire (over-approximates asyncio's FIFO ready queue).  The model
    starts right after ws.accept() has returned (pump task created, not yet run).
 
-   [fixed] selects the repaired notification in receive() (fixes/C18-put-waiter-cancelled.patch);
-   with fixed = false the model is the code as found. *)
+   [fixed] selects the repaired code: the notification in receive()
+   (fixes/C18-put-waiter-cancelled.patch) and receive() on a stopped receiver
+   (fixes/C17-receive-after-stopped-receiver.patch); fixed = false is the code as found. *)
 From Coq Require Import ZArith NArith List Bool Arith.
 Import ListNotations.
 
@@ -207,6 +208,15 @@ Definition recv_loop (fixed : bool) (s : st) : st :=
     end
   end.
 
+(* repaired receive() on a stopped receiver (fixes/C17-receive-after-stopped-receiver.patch):
+   what is queued is delivered in order, then a disconnect event carrying the client's code
+   if the client is known to have disconnected *)
+Definition recv_stopped (s : st) : st :=
+  match queue s with
+  | m :: q => finish_event m (set_consumed (consumed s ++ [(m, true)]) (set_queue q s))
+  | [] => finish_event (Disc (if flag s then Some (dcode s) else None)) s
+  end.
+
 Definition recv_call (fixed : bool) (s : st) : option st :=
   match recv s with
   | RIdle =>
@@ -216,7 +226,9 @@ Definition recv_call (fixed : bool) (s : st) : option st :=
       if cap s =? 0 then                                       (* pass-through *)
         Some (set_recv RAwaitServer (set_outst (S (outst s)) (set_pulls (S (pulls s)) s)))
       else if popw s then Some (logr KRecv EAssert s)
-      else if negb (ptask s) then Some (logr KRecv EAssert s)
+      else if negb (ptask s) then
+        (* the receiver was stopped by close() but the socket is not CLOSED *)
+        if fixed then Some (recv_stopped s) else Some (logr KRecv EAssert s)
       else Some (recv_loop fixed s)
     end
   | _ => None
